@@ -18,6 +18,7 @@ mod lru;
 mod order;
 mod poly;
 mod sdd;
+mod ser;
 mod table;
 mod unitprop;
 mod vtree;
@@ -43,6 +44,7 @@ pub fn run_case(c: &Value) -> CaseResult {
         "unitprop" => unitprop::run(c),
         "lat_eu" | "lat_real" | "lat_bool" | "lat_rational" | "lat_complex" => lattice::run(c),
         "wmc" => wmc::run(c),
+        "ser_bdd" | "ser_sdd" | "ser_vtree" => ser::run(c),
         "compile_expr" | "compile_cnf" | "compile_sdd" | "compile_wide" => compile::run(c),
         _ => Err(format!("unknown case kind {kind}")),
     });
@@ -103,6 +105,7 @@ fn main() {
                 "lattice" => lattice::candidates(seed),
                 "compile" => compile::candidates(seed),
                 "wmc" => wmc::candidates(seed),
+                "ser" => ser::candidates(seed),
                 _ => vec![],
             };
             // C11 (semantic hashing): of the shared enumerators only failures of the hash-identified builders / of the hash count
